@@ -10,7 +10,7 @@
    [rerr s = true]: the read loop has recorded the failure (closeError ran). *)
 From Coq Require Import List ZArith Bool.
 Import ListNotations.
-From Goat Require Import Model.Client Proofs.ClientBase Proofs.ClientInv Proofs.ClientLog Proofs.ClientLive Proofs.ClientProps.
+From Goat Require Import Model.Client Proofs.ClientBase Proofs.ClientInv Proofs.ClientLog Proofs.ClientLive Proofs.ClientProps Proofs.ClientTerm.
 Open Scope Z_scope.
 
 (* (Q) settles: after the failure, in every quiescent state, a call none of whose threads the environment holds
@@ -58,9 +58,29 @@ Theorem C09_failfast : forall s c k, rerr s = true -> nth_error (calls s) c = So
 Proof. exact C09_failfast_l. Qed.
 Print Assumptions C09_failfast.
 
-(* (T) C09_terminates_partial: a measure that every internal rule decreases (no live-lock: a quiescent state is
-   always reached once the environment stops acting) is NOT proved; every run of the correspondence check
-   explores all orders of the internal rules to quiescence with a fuel bound and reports divergence. *)
+(* (T) no live-lock. [mu] (Proofs/ClientTerm.v) weighs the unread transport input (8 per envelope), the read loop
+   (holding 8 > reading 1 > dead 0) and per call 5 x the rank of the call thread + the ranks of the stream loop and
+   of RecvMsg + the operations waiting + 6 for a queued envelope. EVERY internal rule - in every state, reachable or
+   not, whatever the environment did before - strictly decreases it: *)
+Theorem C09_measure : forall s n s', lstep s (LInt n) = Some s' -> (mu s' < mu s)%nat.
+Proof. exact C09_measure_l. Qed.
+Print Assumptions C09_measure.
+
+(* ... hence every run of internal rules from s has at most [mu s] steps (every maximal one is finite) ... *)
+Theorem C09_terminates : forall s ns s', lrun s (map LInt ns) = Some s' -> (length ns + mu s' <= mu s)%nat.
+Proof. exact C09_terminates_l. Qed.
+Print Assumptions C09_terminates.
+
+(* ... a run that cannot be extended by an internal rule ends in a quiescent state, and from every state one is
+   reached by internal rules alone *)
+Theorem C09_maximal_quiescent : forall s, (forall n, lstep s (LInt n) = None) -> quiescent s = true.
+Proof. exact maximal_quiescent_l. Qed.
+Print Assumptions C09_maximal_quiescent.
+
+Theorem C09_reaches_quiescent : forall s,
+  exists ns s', lrun s (map LInt ns) = Some s' /\ quiescent s' = true /\ (length ns <= mu s)%nat.
+Proof. exact C09_reaches_quiescent_l. Qed.
+Print Assumptions C09_reaches_quiescent.
 
 (* ---------- the hypotheses are satisfiable ---------- *)
 Definition reply (id b : Z) : env := mkEnv id (Some (MdOk 0)) None (Some b) (Some (MdOk 0)) false.
